@@ -344,6 +344,7 @@ pub fn run(rep: &mut Report) {
         }
     }
 
+    obs::FIGS.with(|f| *f.borrow_mut() = Some(vec![]));
     let mut rng = Rng::new(rep.seed ^ 0xC13);
     let n = rep.budget(1_600, 12);
     let html_every = 4;
@@ -353,8 +354,13 @@ pub fn run(rep: &mut Report) {
     for i in 0..n {
         let case = gen_case(&mut rng);
         tally(rep, &case);
+        let collision = has_name_collision(&ctx.env, &case);
+        if collision {
+            rep.count("covdir.name_collision");
+        }
         for &w in WRITERS {
-            if w == "html" && i % html_every != 0 {
+            // colliding paths cannot be laid out as source files (a file and a directory of one name)
+            if w == "html" && (i % html_every != 0 || collision) {
                 continue;
             }
             let o = observe(&ctx.env, &case, w);
@@ -424,6 +430,24 @@ pub fn run(rep: &mut Report) {
             disagreement(rep, &mut ctx, &case, w, why, &model[j], canon, true);
         }
     }
+    // the tolerance lives in the model (`Stats/Printed.lean`): every printed figure the oracles
+    // evaluated goes through `printedOK`; the float evaluation of the harness must agree with it
+    let figs = obs::FIGS.with(|f| f.borrow_mut().take()).unwrap_or_default();
+    let freqs: Vec<String> = figs.iter().map(|f| f.0.clone()).collect();
+    let fans = run_model_named("gm_c13", &freqs, &rep.workdir, "c13printed");
+    let mut bad = 0;
+    for (k, (req, ok)) in figs.iter().enumerate() {
+        rep.count(if *ok { "printed.admissible" } else { "printed.rejected" });
+        if fans[k] != if *ok { "1" } else { "0" } {
+            bad += 1;
+            if bad <= 5 {
+                rep.disagreements_checked += 1;
+                rep.fail("disagreement", None, "printed figure: the harness' float check and the model's printedOK differ".into(),
+                    json!({"op": "printed", "request": req, "harness": ok, "model": fans[k]}));
+            }
+        }
+    }
+    rep.notes.push(format!("{} printed figures checked against the model's printedOK", figs.len()));
 }
 
 pub fn replay(rep: &mut Report, case: &serde_json::Value) {
